@@ -52,6 +52,15 @@ type Ctx struct {
 	seen   map[string]struct{}
 }
 
+// Now records the scenario about to run, so that a crash of the library under
+// it (a panic in one of its goroutines cannot be recovered) is reported with
+// the scenario that provoked it.
+func (c *Ctx) Now(what string) {
+	if *flagReport != "" {
+		os.WriteFile(*flagReport+".scenario", []byte(what), 0644)
+	}
+}
+
 // Case writes one command line for the model runner.
 func (c *Ctx) Case(t enc.T) {
 	c.Out.WriteString(t.String())
